@@ -636,11 +636,12 @@ def r5_dispatch_table(chk, prog):
             if not ok:
                 detail = 'the scope guard is not set up before the first word is evaluated'
         else:
-            inner = [l for l in loops_in(f) if any(node is x for x in walk(l))]
-            off = f.cfg.must_pass_through(lambda x: x is node) if inner else ['not in a loop over the members']
-            ok = ok or not off
-            if off:
-                detail = 'the value lists are not closed on every normal path (or not for every member)'
+            # a reset on the normal path only: an evaluation that ends with an exception (a value that fails its
+            # conversion or check) leaves the list open - Handler::evalArguments() resets at EVERY exit
+            in_catch = any(a.get('k') == 'CXXCatchStmt' for a in f.ancestors(node))
+            if not ok and not in_catch:
+                detail = 'the value lists are closed on the normal path only: after an evaluation that ends with an ' \
+                         'exception the list of the last argument is still open'
     n += 1
     chk.check(ok, 'R5', f.name, 'no value list of a member stays open when the evaluation ends', f.loc(), '' if ok else detail)
     chk.require(n >= 32, 'dispatch combinations evaluated: %d' % n)
